@@ -159,6 +159,9 @@ func ErrClass(err error) string {
 	if strings.Contains(err.Error(), "receiver cannot be the genesis node") {
 		return "genesis-receiver"
 	}
+	if strings.Contains(err.Error(), "spice is not canonical") {
+		return "noncanonical-spice"
+	}
 	for _, c := range []struct {
 		e error
 		n string
